@@ -544,6 +544,14 @@ func (txn *Txn) commitAndSend() (func() error, error) {
 		return nil, ErrConflict
 	}
 	vhook.Event("commitTs", commitTs, txn.readTs)
+	if vhook.On {
+		for _, e := range txn.pendingWrites {
+			vhook.Entry("commitEntry", e.Key, e.Value, e.version, e.meta, e.UserMeta, e.ExpiresAt)
+		}
+		for _, e := range txn.duplicateWrites {
+			vhook.Entry("commitEntry", e.Key, e.Value, e.version, e.meta, e.UserMeta, e.ExpiresAt)
+		}
+	}
 	vhook.Point("txn.commit.tsAllocated")
 
 	keepTogether := true
